@@ -180,6 +180,7 @@ def inv(ctx, m, cls, latlon, temporal, with_opt=True):
     d = m.dim
     na = d * (d - 1) // 2
     cs = [np.shape(m.anis) == (d - 1,), np.shape(m.angles) == (na,),
+          m._sft.ndim == d,        # the numerical (Hankel) spectrum is computed in the model dimension
           ctx.gt(m.var, 0), ctx.gt(m.len_scale, 0), ctx.ge(m.nugget, 0),
           ctx.eq(m.sill, m.var + m.nugget),
           m.field_dim == (2 + int(temporal) if latlon else d),
